@@ -137,17 +137,20 @@ AllVouts(m) == UNION {m.x[i].vouts : i \in DOMAIN m.x}
 SharpQ(m) == \A i \in DOMAIN m.x : m.x[i].nv = 0
 MaxNeed(m) == LET S == UNION {{m.x[i].steps[j].n : j \in DOMAIN m.x[i].steps} : i \in DOMAIN m.x} IN
               IF S = {} THEN 1 ELSE CHOOSE a \in S : \A b \in S : a >= b
+Overlap(m, i, j) == m.x[i].keys \cap m.x[j].keys # {} \/ m.x[i].chars \cap m.x[j].chars # {}
 
 MonInit(p) ==
   [p |-> p, x |-> [i \in DOMAIN p.macros |-> MInfo(p.macros[i])],
-   acts |-> <<>>,     \* running activations, oldest first
+   acts |-> <<>>,     \* activations in the sharp zone, oldest first
+   dused |-> {},      \* macros with an activation outside the sharp zone since the last idle point
+   nreg |-> 0,        \* macros started since the last idle point (capped)
+   over |-> FALSE,    \* more than cap macros were started without an idle point in between: the documented
+                      \* capacity may be exceeded, only E1 / B1 are judged until kanata has settled
    down |-> {},       \* macro keys down at the OS
    ql |-> 0,          \* inputs arrived and not yet processed (one per tick)
    gapIn |-> 0, lastIdle |-> TRUE,
-   over |-> FALSE,    \* more than cap activations ran together since the last idle point
-   trig |-> FALSE,    \* a cancel-on-press macro was started since the last idle point
+   trig |-> FALSE,    \* the trigger of a cancel-on-press macro may be armed (a press may cancel the macros)
    lastc |-> "none",  \* kind of the last cancellation
-   dused |-> {},      \* macros with an activation outside the sharp zone that is no longer tracked
    vbal |-> 0,        \* virtual-key taps seen minus taps owed by completed macros
    err |-> ""]
 
@@ -156,25 +159,27 @@ MonInit(p) ==
 \*  step (since arrival before the first); stepped = played a step this tick; st "live" | "canc"
 \*  (cancelled; may finish the step in flight) | "cleaning" (only releases) | "done"; ttlS ticks during
 \*  which steps are still allowed (-1 no limit); ttlC ticks until every held key must be up (-1 no limit);
-\*  clean = in the sharp zone; proc ticks until the activating press is processed; rnd 1 | 2 (later round);
-\*  key = the macro key is still held; rttl ticks during which a new round may still start after the
-\*  release (-1 no limit); zomb ticks the finished macro still counts as active; life = upper bound on
-\*  the ticks an activation outside the sharp zone can still be active
-NewAct(m, mi, clean) ==
-  LET empty == m.x[mi].N = 0 IN     \* a body without visible steps only keeps the macro active for a while
-  [mi |-> mi, pos |-> 0, held |-> {}, el |-> 0, stepped |-> FALSE, st |-> IF empty THEN "done" ELSE "live",
-   ttlS |-> 0 - 1, ttlC |-> 0 - 1, clean |-> clean, proc |-> m.ql + 1, rnd |-> 1, key |-> TRUE, rttl |-> 0 - 1,
-   zomb |-> IF empty THEN m.ql + 1 + m.x[mi].trail ELSE m.x[mi].trail, life |-> m.ql + m.x[mi].dur + 3]
+\*  proc ticks until the activating press is processed; rnd 1 | 2 (later round); key = the macro key is
+\*  still held; rttl ticks during which a new round may still start after the release (-1 no limit)
+NewAct(m, mi) ==
+  [mi |-> mi, pos |-> 0, held |-> {}, el |-> 0, stepped |-> FALSE,
+   st |-> IF m.x[mi].N = 0 THEN "done" ELSE "live",
+   ttlS |-> 0 - 1, ttlC |-> 0 - 1, proc |-> m.ql + 1, rnd |-> 1, key |-> TRUE, rttl |-> 0 - 1]
 
 SharpCancelled(a) == a.st \in {"canc", "cleaning"} /\ a.ttlC >= 0
 
 CancelAll(m, ttlS, ttlC, kind) ==
-  [m EXCEPT !.lastc = kind,
-            !.acts = [i \in DOMAIN m.acts |->
-                        LET a == m.acts[i] IN
-                        IF a.st = "live" \/ (a.st = "canc" /\ a.ttlC < 0 /\ ttlC >= 0)
-                        THEN [a EXCEPT !.st = IF ttlS = 0 THEN "cleaning" ELSE "canc", !.ttlS = ttlS, !.ttlC = ttlC]
-                        ELSE a]]
+  LET upd == [i \in DOMAIN m.acts |->
+                LET a == m.acts[i] IN
+                IF a.st = "live" \/ (a.st = "canc" /\ a.ttlC < 0 /\ ttlC >= 0)
+                THEN [a EXCEPT !.st = IF ttlS = 0 THEN "cleaning" ELSE "canc", !.ttlS = ttlS, !.ttlC = ttlC]
+                ELSE a]
+      \* a unicode item already taken up by a cancelled macro comes out at some later tick (it waits for a
+      \* tick without another custom action): such activations leave the sharp zone
+      uni(a) == m.x[a.mi].chars # {}
+  IN [m EXCEPT !.lastc = kind,
+               !.acts = SelectSeq(upd, LAMBDA a : ~uni(a)),
+               !.dused = @ \cup {upd[i].mi : i \in {j \in DOMAIN upd : uni(upd[j])}}]
 
 MonIn(m, r) ==
   IF m.err # "" THEN m
@@ -183,38 +188,33 @@ MonIn(m, r) ==
     LET p == m.p
         mi == MacIdx(p, r.c)
         m0 == [m EXCEPT !.ql = @ + 1, !.gapIn = @ + 1]
-    IN IF m.over THEN m0      \* beyond the documented capacity: only E1 / B1 are judged until the next idle point
+    IN IF m.over THEN m0
        ELSE IF r.e = "d"
        THEN LET \* C3: a cancel-on-press macro in its first round, processed and still with steps to play
                 must == SharpQ(m) /\ \E i \in DOMAIN m.acts :
                           LET a == m.acts[i] IN
-                          /\ a.st = "live" /\ a.clean /\ p.macros[a.mi].pc /\ a.proc = 0 /\ a.rnd = 1
+                          /\ a.st = "live" /\ p.macros[a.mi].pc /\ a.proc = 0 /\ a.rnd = 1
                           /\ a.pos < m.x[a.mi].N /\ p.macros[a.mi].c # r.c
                 m1 == IF must THEN CancelAll(m0, 0, 1, "pc")
                       ELSE IF m.trig THEN CancelAll(m0, 0 - 1, 0 - 1, "pc?") ELSE m0
             IN IF mi = 0 THEN m1
-               ELSE LET occ == Len(m1.acts) + 1
-                        confl == {i \in DOMAIN m1.acts :
-                                    ~SharpCancelled(m1.acts[i])
-                                    /\ (m.x[m1.acts[i].mi].keys \cap m.x[mi].keys # {}
-                                        \/ m.x[m1.acts[i].mi].chars \cap m.x[mi].chars # {})}
-                        dconfl == \E j \in m.dused : m.x[j].keys \cap m.x[mi].keys # {}
-                                                      \/ m.x[j].chars \cap m.x[mi].chars # {}
-                    IN IF occ > p.cap
-                       THEN [m1 EXCEPT !.over = TRUE, !.acts = <<>>]
-                       ELSE [m1 EXCEPT !.trig = @ \/ p.macros[mi].pc,
-                                       !.acts = Append([i \in DOMAIN m1.acts |->
-                                                          IF i \in confl THEN [m1.acts[i] EXCEPT !.clean = FALSE]
-                                                          ELSE m1.acts[i]],
-                                                       NewAct(m, mi, confl = {} /\ ~dconfl))]
+               ELSE LET confl == {i \in DOMAIN m1.acts : ~SharpCancelled(m1.acts[i]) /\ Overlap(m, m1.acts[i].mi, mi)}
+                        dconfl == \E j \in m.dused : Overlap(m, j, mi)
+                        keep == SelectSeq(m1.acts, LAMBDA a : SharpCancelled(a) \/ ~Overlap(m, a.mi, mi))
+                    IN IF m.nreg + 1 > p.cap
+                       THEN [m1 EXCEPT !.over = TRUE, !.acts = <<>>, !.dused = {}]
+                       ELSE IF confl # {} \/ dconfl
+                       THEN \* the projections on the macro's keys interleave: outside the sharp zone
+                            [m1 EXCEPT !.nreg = @ + 1, !.trig = @ \/ p.macros[mi].pc, !.acts = keep,
+                                       !.dused = @ \cup {mi} \cup {m1.acts[i].mi : i \in confl}]
+                       ELSE [m1 EXCEPT !.nreg = @ + 1, !.trig = @ \/ (p.macros[mi].pc /\ ~SharpQ(m)),
+                                       !.acts = Append(m1.acts, NewAct(m, mi))]
        ELSE IF mi = 0 THEN m0
        ELSE LET sharp == SharpQ(m)
                 m1 == [m0 EXCEPT !.acts = [i \in DOMAIN m.acts |->
                                              LET a == m.acts[i] IN
                                              IF a.mi = mi /\ a.key
-                                             THEN [a EXCEPT !.key = FALSE,
-                                                            !.rttl = IF sharp THEN m.ql + 2 ELSE 0 - 1,
-                                                            !.life = m.ql + 2 * m.x[mi].dur + 3]
+                                             THEN [a EXCEPT !.key = FALSE, !.rttl = IF sharp THEN m.ql + 2 ELSE 0 - 1]
                                              ELSE a]]
             IN IF p.macros[mi].rc
                THEN IF sharp THEN CancelAll(m1, m.ql + 1, m.ql + 2, "rc") ELSE CancelAll(m1, 0 - 1, 0 - 1, "rc")
@@ -236,13 +236,19 @@ IsWrap(m, a) == a.pos >= m.x[a.mi].N
 \* why an otherwise matching step is not acceptable ("" = acceptable)
 StepObjection(m, a, kind, arg) ==
   LET s == m.x[a.mi].steps[NextIdx(m, a)] IN
-  IF a.st = "cleaning" \/ a.ttlS = 0
+  \* (a unicode item already taken up when the cancellation takes effect may still come out later: it holds no key)
+  IF (a.st = "cleaning" \/ a.ttlS = 0) /\ kind # "U"
   THEN "C08 C1: a cancelled macro kept playing its steps"
   ELSE IF IsWrap(m, a) /\ ~a.key /\ a.rttl = 0
   THEN "C08 R2: a repeating macro started a new round although its key had been released"
   ELSE IF a.stepped THEN "C08 S2: two steps of one macro in the same millisecond"
   ELSE IF a.el < s.n THEN "C08 D1: a step came sooner after its predecessor than the stated delay"
   ELSE ""
+\* the event is the step after a unicode item that has not come out yet
+Overtakes(m, a, kind, arg) ==
+  LET j == NextIdx(m, a)
+      st == m.x[a.mi].steps
+  IN j # 0 /\ j < Len(st) /\ st[j].t = "U" /\ StepMatches(a, st[j + 1], kind, arg)
 CleanOk(a, kind, arg) == a.st \in {"canc", "cleaning"} /\ kind = "u" /\ arg \in a.held
 
 ApplyStep(m, i, kind, arg) ==
@@ -259,22 +265,27 @@ ApplyStep(m, i, kind, arg) ==
 
 MacroEvent(m, kind, arg) ==
   LET acts == m.acts
-      C == {i \in DOMAIN acts : IF kind = "U" THEN arg \in m.x[acts[i].mi].chars ELSE arg \in m.x[acts[i].mi].keys}
-      D == {j \in m.dused : IF kind = "U" THEN arg \in m.x[j].chars ELSE arg \in m.x[j].keys}
+      Uses(j) == IF kind = "U" THEN arg \in m.x[j].chars ELSE arg \in m.x[j].keys
+      C == {i \in DOMAIN acts : Uses(acts[i].mi)}
+      DoClean(i) == [m EXCEPT !.acts[i] = [acts[i] EXCEPT !.held = @ \ {arg}, !.st = "cleaning", !.ttlS = 0]]
+      clAny == {i \in C : CleanOk(acts[i], kind, arg)}
   IN IF m.over THEN m
-     ELSE IF D # {}     \* may stem from an activation outside the sharp zone: nothing can be said
-     THEN [m EXCEPT !.acts = [i \in DOMAIN acts |-> IF i \in C THEN [acts[i] EXCEPT !.clean = FALSE] ELSE acts[i]]]
+     ELSE IF \E j \in m.dused : Uses(j)      \* outside the sharp zone: nothing can be said
+     THEN IF clAny # {} THEN DoClean(SetMin(clAny)) ELSE m
+     \* the OS sees a release one tick after the key left kanata's state: the tick after an idle report may
+     \* still release keys of macros that were cancelled outside the sharp zone
+     ELSE IF kind = "u" /\ m.lastIdle /\ \A i \in C : arg \notin acts[i].held THEN m
+     ELSE IF C = {} /\ kind = "U" /\ m.lastc # "none" THEN m
      ELSE IF C = {} THEN Fail(m, "C08 S0: output on a macro's key while no macro that uses the key is running")
-     ELSE IF \E i \in C : ~acts[i].clean
-     THEN [m EXCEPT !.acts = [i \in DOMAIN acts |-> IF i \in C THEN [acts[i] EXCEPT !.clean = FALSE] ELSE acts[i]]]
      ELSE LET W == {i \in C : WouldStep(m, acts[i], kind, arg)}
               ok == {i \in W : StepObjection(m, acts[i], kind, arg) = ""}
               cl == {i \in C : CleanOk(acts[i], kind, arg)}
           IN IF ok # {} THEN ApplyStep(m, SetMin(ok), kind, arg)
              ELSE IF cl # {}
-             THEN LET i == SetMin(cl) IN
-                  [m EXCEPT !.acts[i] = [acts[i] EXCEPT !.held = @ \ {arg}, !.st = "cleaning", !.ttlS = 0]]
+             THEN DoClean(SetMin(cl))
              ELSE IF W # {} THEN Fail(m, StepObjection(m, acts[SetMin(W)], kind, arg))
+             ELSE IF kind # "U" /\ \E i \in C : Overtakes(m, acts[i], kind, arg)
+             THEN Fail(m, "C08 O1: a key step of the macro was output before the unicode item that precedes it")
              ELSE Fail(m, "C08 S1: output on a macro's key that is not the macro's next step (order / extra / missing step)")
 
 RECURSIVE ScanOut(_, _)
@@ -300,34 +311,26 @@ MonTick(m, out, idle, cb) ==
   IF m.err # "" THEN m
   ELSE
     LET p == m.p
-        cap == MaxNeed(m) + 1
+        cap == MaxNeed(m)
         \* start of the tick
         m0 == [m EXCEPT !.acts = [i \in DOMAIN m.acts |->
                                     [m.acts[i] EXCEPT !.stepped = FALSE, !.el = OMin(@ + 1, cap)]]]
         m1 == ScanOut(m0, out)
         \* end of the tick, per activation
-        lateC2 == \E i \in DOMAIN m1.acts : LET a == m1.acts[i] IN a.clean /\ a.ttlC = 1 /\ a.held # {}
+        lateC2 == \E i \in DOMAIN m1.acts : m1.acts[i].ttlC = 1 /\ m1.acts[i].held # {}
         EndAct(a) ==
-          LET rep == p.macros[a.mi].rep
-              finished == a.pos >= m.x[a.mi].N
-              a1 == [a EXCEPT !.proc = Dec(@), !.ttlS = Dec(@), !.ttlC = Dec(@), !.rttl = Dec(@)]
-              \* a repeating macro whose round ended and which can no longer restart is done
-              a2 == IF a1.st = "live" /\ rep /\ finished /\ ~a1.key /\ a1.rttl = 0 THEN [a1 EXCEPT !.st = "done"] ELSE a1
-          IN IF a2.st = "done" THEN [a2 EXCEPT !.zomb = @ - 1]
-             ELSE IF ~a2.clean /\ ~(rep /\ a2.key) THEN [a2 EXCEPT !.life = @ - 1]
-             ELSE a2
-        Keep(a) == /\ ~(a.st = "done" /\ a.zomb < 0)
-                   /\ ~(a.ttlC = 0)
-                   /\ ~(~a.clean /\ a.life <= 0 /\ ~(p.macros[a.mi].rep /\ a.key))
-        ended == [i \in DOMAIN m1.acts |-> EndAct(m1.acts[i])]
-        acts2 == SelectSeq(ended, Keep)
-        dused2 == m1.dused \cup {ended[i].mi : i \in {j \in DOMAIN ended : ~ended[j].clean /\ ~Keep(ended[j])}}
+          LET a1 == [a EXCEPT !.proc = Dec(@), !.ttlS = Dec(@), !.ttlC = Dec(@), !.rttl = Dec(@)] IN
+          \* a repeating macro whose round ended and which can no longer restart is done
+          IF a1.st = "live" /\ p.macros[a.mi].rep /\ a.pos >= m.x[a.mi].N /\ ~a1.key /\ a1.rttl = 0
+          THEN [a1 EXCEPT !.st = "done"] ELSE a1
+        Keep(a) == a.st # "done" /\ a.ttlC # 0
+        acts2 == SelectSeq([i \in DOMAIN m1.acts |-> EndAct(m1.acts[i])], Keep)
         \* idle: nothing is queued and no macro runs
-        judged(a) == a.clean /\ a.st = "live" /\ a.proc <= 1
-        s3 == idle /\ \E i \in DOMAIN m1.acts : LET a == m1.acts[i] IN judged(a) /\ a.pos < m.x[a.mi].N
+        s3 == idle /\ \E i \in DOMAIN m1.acts : LET a == m1.acts[i] IN
+                        a.st = "live" /\ a.proc <= 1 /\ a.pos < m.x[a.mi].N
         r1 == idle /\ \E i \in DOMAIN m1.acts : LET a == m1.acts[i] IN
                         a.st = "live" /\ a.proc <= 1 /\ p.macros[a.mi].rep /\ a.key
-        acts3 == IF idle THEN SelectSeq(acts2, LAMBDA a : SharpCancelled(a) /\ a.clean) ELSE acts2
+        acts3 == IF idle THEN SelectSeq(acts2, SharpCancelled) ELSE acts2
         settled == idle /\ m.lastIdle /\ m.gapIn = 0
         stuck == m1.down # {}
         m2 == IF m1.err # "" THEN m1
@@ -336,9 +339,9 @@ MonTick(m, out, idle, cb) ==
               ELSE IF r1 THEN Fail(m1, "C08 R1: kanata is idle although the key of a repeating macro is held")
               ELSE IF settled /\ stuck
               THEN Fail(m1, IF m1.over
-                            THEN "C08 E1: a key pressed by a macro is still down although kanata is idle [more than 4 macros were active together]"
+                            THEN "C08 E1: a key pressed by a macro is still down although kanata is idle [more than 4 macros were started without an idle point in between]"
                             ELSE "C08 E1: a key pressed by a macro is still down although kanata is idle")
-              ELSE IF p.b1 /\ cb /\ stuck
+              ELSE IF p.b1 /\ cb /\ stuck /\ ~m1.over
               THEN Fail(m1, IF m1.lastc = "rc"
                             THEN "C08 B1: kanata can block while a key pressed by a macro is still down at the OS [after macro-release-cancel]"
                             ELSE "C08 B1: kanata can block while a key pressed by a macro is still down at the OS")
@@ -348,9 +351,11 @@ MonTick(m, out, idle, cb) ==
     IN [m2 EXCEPT !.acts = acts3,
                   !.ql = IF idle THEN 0 ELSE OMax(m.ql - 1, 0),
                   !.gapIn = 0, !.lastIdle = idle,
+                  !.nreg = IF idle THEN 0 ELSE @,
+                  !.dused = IF idle THEN {} ELSE @,
+                  !.trig = IF idle THEN FALSE
+                           ELSE @ \/ \E i \in DOMAIN acts2 : p.macros[acts2[i].mi].pc /\ acts2[i].proc = 0,
                   !.over = IF settled THEN FALSE ELSE @,
-                  !.trig = IF idle THEN FALSE ELSE @,
-                  !.dused = IF idle THEN {} ELSE dused2,
                   !.lastc = IF settled THEN "none" ELSE @,
                   !.vbal = IF settled THEN 0 ELSE @]
 
@@ -358,7 +363,7 @@ RECURSIVE MonSilent(_, _, _, _)
 MonSilent(m, n, idle, cb) ==
   IF n = 0 \/ m.err # "" THEN m
   ELSE IF m.acts = <<>> /\ m.ql = 0 /\ m.gapIn = 0 /\ m.lastIdle = idle /\ idle /\ ~m.over /\ ~m.trig
-          /\ m.lastc = "none" /\ m.vbal = 0 /\ m.down = {} /\ m.dused = {}
+          /\ m.lastc = "none" /\ m.vbal = 0 /\ m.down = {} /\ m.dused = {} /\ m.nreg = 0
   THEN m
   ELSE MonSilent(MonTick(m, <<>>, idle, cb), n - 1, idle, cb)
 =============================================================================
